@@ -64,6 +64,16 @@ def enumerate_cases(tier):
         out.append({"k": "prefix", "i": i})
     for name in sorted(m.Unit._by_name):
         out.append({"k": "named-unit", "name": name})
+    # prefixes produced by mixed-base cancellations, (a*b)/c and (a/b)*c over all registered
+    # prefixes (exhaustive; distinct results only): some are an ulp away from a whole exponent
+    out.append({"k": "prefix-triples"})
+    # documents written in one process and read in another: compound units that the reading
+    # world has never built, and a world that defines a new fundamental dimension in between
+    names = sorted(n for n in C.all_units if n in C.units)
+    for i in range(24 if tier == "quick" else 200):
+        a, b, c3 = names[(7 * i) % len(names)], names[(13 * i + 5) % len(names)], names[(29 * i + 11) % len(names)]
+        out.append({"k": "cross-world", "terms": [["", a, 2 - (i % 2) * 3], ["kilo" if i % 3 == 0 else "", b, -1], ["", c3, 1 + i % 2]]})
+    out.append({"k": "after-define"})
     return out
 
 
@@ -161,6 +171,12 @@ def run_case(case) -> core.Outcome:
     c = convgen.ctx()
     m = c.m
     jsonmod = c.w.load("json")
+    if isinstance(case, dict) and case.get("k") in ("prefix-triples", "cross-world", "after-define"):
+        try:
+            {"prefix-triples": _run_prefix_triples, "cross-world": _run_cross_world, "after-define": _run_after_define}[case["k"]](c, case, out)
+        finally:
+            convgen.ctx()  # the shared world is the active one again
+        return out
     try:
         kind = case["k"]
         if kind == "dimension":
@@ -282,6 +298,133 @@ def run_case(case) -> core.Outcome:
     return out
 
 
+def _run_prefix_triples(c, case, out):
+    m = c.m
+    jsonmod = c.w.load("json")
+    enc, dec = jsonmod.MeasuredJSONEncoder, jsonmod.MeasuredJSONDecoder
+    named = [c.snap.prefixes[n] for n in sorted(c.snap.prefixes) if n]
+    seen = {}
+    for a in named:
+        for b in named:
+            ab, aob = a * b, a / b
+            for c3 in named:
+                for p in (ab / c3, aob * c3):
+                    seen.setdefault(id(p), p)
+    meter = c.units["meter"]
+    n = 0
+    for p in seen.values():
+        n += 1
+        for cname, fn in (("json", lambda x: json.loads(json.dumps(x, cls=enc), cls=dec)), ("pickle", lambda x: pickle.loads(pickle.dumps(x))), ("deepcopy", copy.deepcopy)):
+            for obj, kind in ((p, "prefix"), (p * meter, "unit")):
+                try:
+                    back = fn(obj)
+                except Exception as e:  # noqa
+                    out.fail(f"C15:raises:{kind}:{cname}:{type(e).__name__}@{core.innermost_frame(e)}", f"{cname} round trip of {obj!r} raised {type(e).__name__}: {e}")
+                    continue
+                if back is not obj:
+                    out.fail(f"C15:identity:{kind}:{cname}", f"{cname} round trip of {obj!r} (from prefix arithmetic (a*b)/c) returned a different object {back!r}")
+        if len(out.failures) > 20:
+            break
+    out.classes.append("prefix-triples:checked")
+    out.nontrivial = "prefix-triples"
+    out.sample = {"distinct_prefixes_from_triples": n}
+
+
+MODS = ["si", "us", "energy", "astronomical", "metric", "iec"]
+
+
+def _model_dim(c, terms):
+    return c.snap.model_dim(c.snap.model_terms([t for t in terms]))
+
+
+def _run_cross_world(c, case, out):
+    """encode a compound unit in the shared world, decode the documents in a fresh world that
+    has never built it; the decoded unit must have the dimension of its factors and be the
+    object that ordinary arithmetic yields afterwards"""
+    from .. import model
+    from ..world import World
+
+    try:
+        terms = case["terms"]
+        for p, u, e in terms:
+            if p not in c.snap.prefixes or u not in c.units or not isinstance(e, int) or isinstance(e, bool) or e == 0 or abs(e) > 3:
+                raise ValueError
+    except Exception:
+        out.invalid = True
+        return
+    m = c.m
+    jsonmod = c.w.load("json")
+    x = c.snap.build_terms(terms)
+    want_dim = tuple(x.dimension.exponents) if tuple(x.dimension.exponents) == _model_dim(c, terms) else _model_dim(c, terms)
+    docs = {"json": json.dumps(x, cls=jsonmod.MeasuredJSONEncoder), "json-quantity": json.dumps(m.Quantity(3, x), cls=jsonmod.MeasuredJSONEncoder)}
+    blobs = {"pickle": pickle.dumps(x), "pickle-quantity": pickle.dumps(m.Quantity(3, x))}
+    shape = _shape(c, x)
+    for codec in ("json", "json-quantity", "pickle", "pickle-quantity"):
+        w2 = World(["measured.systems", "geometry", "physics"])
+        m2 = w2.m
+        j2 = w2.load("json")
+        try:
+            if codec.startswith("json"):
+                back = json.loads(docs[codec], cls=j2.MeasuredJSONDecoder)
+            else:
+                back = pickle.loads(blobs[codec])
+        except Exception as e:  # noqa
+            if codec == "json-quantity" and (shape in ("symbol-less", "folded") or shape.startswith("collision:")):
+                out.fail(f"C15:quantity-unit-string:{shape}", f"{codec} document of 3 x {x!r} does not decode in another process ({type(e).__name__})")
+            else:
+                out.fail(f"C15:cross-process:{codec}:raises:{type(e).__name__}@{core.innermost_frame(e)}", f"decoding the {codec} document of {convgen.terms_str(terms)} in a fresh world raised {type(e).__name__}: {e}")
+            continue
+        u2 = back.unit if codec.endswith("quantity") else back
+        if not isinstance(u2, m2.Unit):
+            out.fail(f"C15:cross-process:{codec}:type", f"decoded {type(back).__name__}")
+            continue
+        if codec == "json-quantity" and (shape in ("symbol-less", "folded") or shape.startswith("collision:")):
+            continue
+        if tuple(u2.dimension.exponents) != want_dim:
+            out.fail(f"C15:cross-process:{codec}:dimension", f"{codec} document of {convgen.terms_str(terms)} decoded in a fresh world has dimension {u2.dimension.exponents}, its factors give {want_dim}")
+        snap2 = model.Snapshot(w2)
+        z = snap2.build_terms(terms)
+        if codec != "json-quantity" and z is not u2:
+            out.fail(f"C15:cross-process:{codec}:identity", f"{codec} document of {convgen.terms_str(terms)}: the decoded unit is not the unit that the same arithmetic yields in the reading process")
+        if tuple(z.dimension.exponents) != want_dim:
+            out.fail(f"C15:cross-process:{codec}:poisoned", f"after decoding the {codec} document, {convgen.terms_str(terms)} built by arithmetic reports dimension {z.dimension.exponents} instead of {want_dim}")
+    out.classes.append("cross-world:checked")
+    out.nontrivial = "cross|" + convgen.terms_str(terms)
+    out.sample = {"cross_process_document_of": convgen.terms_str(terms)}
+
+
+def _run_after_define(c, case, out):
+    """a fresh world in which a new fundamental dimension is defined between two round trips of
+    every dimension and named unit (Dimension.define resizes every exponent tuple in place)"""
+    from ..world import World
+
+    w2 = World(["si", "us", "iec"])
+    m2 = w2.m
+    j2 = w2.load("json")
+    enc, dec = j2.MeasuredJSONEncoder, j2.MeasuredJSONDecoder
+
+    def sweep(tag):
+        objs = sorted(m2.Dimension._known.values(), key=lambda d: d.exponents) + [m2.Unit._by_name[n] for n in sorted(m2.Unit._by_name)]
+        for obj in objs:
+            for cname, fn in (("json", lambda x: json.loads(json.dumps(x, cls=enc), cls=dec)), ("pickle", lambda x: pickle.loads(pickle.dumps(x)))):
+                try:
+                    back = fn(obj)
+                except Exception as e:  # noqa
+                    out.fail(f"C15:after-define:{tag}:{cname}:raises:{type(e).__name__}", f"{cname} round trip of {obj!r} {tag} Dimension.define raised {type(e).__name__}: {e}")
+                    continue
+                if back is not obj:
+                    out.fail(f"C15:after-define:{tag}:{cname}:identity", f"{cname} round trip of {obj!r} {tag} Dimension.define returned a different object {back!r}")
+            if len(out.failures) > 10:
+                return
+
+    sweep("before")
+    m2.Dimension.define("vf15 extra", "VFX")
+    sweep("after")
+    out.classes.append("after-define:checked")
+    out.nontrivial = "after-define"
+    out.sample = {"scenario": "round trips, Dimension.define, round trips again"}
+
+
 def _equal_value(c, a, b):
     from fractions import Fraction
 
@@ -300,6 +443,6 @@ def still_fails(case, bucket):
 
 
 def vacuity(col):
-    need = ["unit:pickle5", "unit:json", "quantity:json", "quantity:composite", "dimension:json", "prefix:deepcopy"]
+    need = ["prefix-triples:checked", "cross-world:checked", "after-define:checked", "unit:pickle5", "unit:json", "quantity:json", "quantity:composite", "dimension:json", "prefix:deepcopy"]
     missing = [k for k in need if not col.classes.get(k)]
     return missing or None
